@@ -30,3 +30,26 @@ func HarnessC13RandStringRunes() {
 	}
 	vReach("end")
 }
+
+// ---- C19/C13: a length taken from a response (`randString .request.s1.postprocessor.n` with the
+// target answering an absurd number). The call that cannot allocate panics - text/template recovers
+// a panicking function and reports the step as failed -, and the generator goes on: the next
+// randString, of this or any other instance, returns its string (a process-wide lock that stays
+// taken would block every later call: a deadlock here).
+func HarnessC19RandStringAfterAbsurdLength() {
+	huge := []int64{1 << 62, 1<<63 - 1, 1 << 61}[vConcretize(vNondetInt("huge", 0, 2))]
+	panicked := false
+	func() {
+		defer func() {
+			if recover() != nil {
+				panicked = true
+			}
+		}()
+		_ = RandStringRunes(huge, "ab")
+	}()
+	vCheck("R7.absurd.length.not.served", panicked)
+	n := vNondetInt("n", 0, 2)
+	out := RandStringRunes(n, "ab")
+	vCheck("R7.next.call.returns.its.string", int64(len(out)) == n)
+	vReach("end")
+}
